@@ -205,6 +205,16 @@ def build_via_history(spec, style=0):
     obj = build(old, style)
     obj.to_geojson()                      # observed once in the old state (twice: dict and collection paths)
     FeatureCollection([obj]).to_geojson()
+    # ... and handed to the other exporters (each is read-only; none may leave a trace in the GeoJSON export)
+    def other_exports():
+        import io
+        import shapefile
+        w = shapefile.Writer(shp=io.BytesIO(), shx=io.BytesIO(), dbf=io.BytesIO())
+        w.field('ID', 'N')
+        w.record(0)
+        obj.to_pyshp(w)
+        return obj.to_wkt(), obj.to_shapely()
+    guarded(other_exports)
     guarded(lambda: (obj.properties, obj.bounds))      # bounds raises for polygons carrying Z
     if target_dt is None:
         obj.strip_dt()
@@ -601,6 +611,34 @@ def main():
             out = [ctuple(c) for c in p.outline]
             add(f'KCtor {rlit(r, Q)} {blit(hole)} {rlit(out, Q)}', {'op': 'ctor', 'ring': r, 'is_hole': hole, 'out': out})
         nontrivial.add(('ring', tuple(r)))
+    # very small rings (sides of about 2e-6 degrees, a few decimetres): orientation is scale free.  The vertices are
+    # 10 + a * 2**-22 with small integers a (dyadic: the float shoelace sum is exact); the model sees the integers a.
+    EPS = Fraction(1, 2 ** 22)
+
+    class Tiny:
+        labels = None
+
+        def __call__(self, x):
+            v = (Fraction(x) - 10) / EPS
+            assert v.denominator == 1, x
+            return int(v)
+    TQ = Tiny()
+    for _ in range(40 if quick else 400):
+        ir = rand_ring(rng, 8.0, 8.0, 6.0, rng.randint(3, 7), None)
+        ir = [(round(x), round(y)) for x, y, _z in ir]
+        ir = [p for i_, p in enumerate(ir) if p != ir[i_ - 1]]
+        if len(ir) < 3:
+            continue
+        r = [(float(10 + Fraction(a) * EPS), float(10 + Fraction(b) * EPS), None) for a, b in ir]
+        cs = [Cd(c) for c in r]
+        o = is_counter_clockwise(cs)
+        add(f'KCcw {rlit(r, TQ)} {blit(o)}', {'op': 'ccw', 'ring': r, 'out': o, 'tiny': True})
+        for hole in (False, True):
+            p = GeoPolygon(list(cs), _is_hole=hole)
+            out = [ctuple(c) for c in p.outline]
+            add(f'KCtor {rlit(r, TQ)} {blit(hole)} {rlit(out, TQ)}', {'op': 'ctor', 'ring': r, 'is_hole': hole, 'out': out, 'tiny': True})
+        nontrivial.add(('tiny-ring', tuple(ir)))
+        ck.count('ring:tiny')
 
     # ---- 2. export of every kind; import of what was exported; the property itself
     kinds = ['point', 'line', 'poly', 'mpoint', 'mline', 'mpoly', 'box']
